@@ -381,10 +381,13 @@ class OpenAPISchemaResolver(SchemaTypeResolver):
         )
         context.add_import("typing", "List")
 
-        # Format the item type properly, handling forward references
+        # A list of a forward reference (e.g. children: List[Node] inside Node) is itself a forward reference:
+        # the whole annotation is quoted ("List[Node]"), because a ForwardRef nested inside a generic
+        # (List["Node"]) is not resolved by cattrs when the value is structured.
         item_type_str = item_type.python_type
-        if item_type.is_forward_ref and not item_type_str.startswith('"'):
-            item_type_str = f'"{item_type_str}"'
+        if item_type.is_forward_ref:
+            unquoted_item = item_type_str.strip('"')
+            return ResolvedType(python_type=f"List[{unquoted_item}]", is_optional=not required, is_forward_ref=True)
 
         return ResolvedType(python_type=f"List[{item_type_str}]", is_optional=not required)
 
